@@ -808,7 +808,8 @@ void Parser::parse_context_hunk(std::vector<PatchLine>& old_lines, LineNumber& o
     NewLine newline;
     while (get_line(line, &newline)) {
         if (starts_with(line, "*** ") && ends_with(line, " ****")) {
-            parse_context_range(old_start_line, old_end_line, line.substr(4, line.size() - 9));
+            if (!parse_context_range(old_start_line, old_end_line, line.substr(4, line.size() - 9)))
+                throw std::runtime_error("Invalid patch, unable to parse context range");
             from_file_range_line_number = m_line_number - 1;
             break;
         }
